@@ -1,5 +1,6 @@
 import Bardic.Driver.Obs
 import Bardic.Driver.ParserRun
+import Bardic.Driver.SrcRun
 import Bardic.Driver.StdlibRun
 import Bardic.Driver.CodecRun
 import Bardic.Driver.IncludeRun
@@ -114,6 +115,8 @@ def handle (line : String) : String :=
     | "codec" => (runCodec j).compress
     | "include" => (runInclude j).compress
     | "graph" => (runGraph j).compress
+    | "compile" => (runCompile j).compress
+    | "compile_out" => (runCompileOut j).compress
     | "pcomp" => (runPcomp j).compress
     | "strip" =>
       let p := Bardic.Parser.stripStr (getStr j "line")
